@@ -37,13 +37,13 @@ ASSUMPTIONS = [
 ]
 
 
-def _fold(rdtype, wire):
+def _fold(rdtype, wire, rdclass=1):
     """lower-case the embedded names of compressible/known layouts: a name rendered through a
     compression pointer comes back in the spelling of the earlier occurrence (RFC 4343 4.1)"""
     from vlib.ref import canon as C
 
     try:
-        pos = C.name_positions(rdtype, wire)
+        pos = C.name_positions(rdtype, wire, rdclass)
     except W.WireError:
         return wire
     b = bytearray(wire)
@@ -70,7 +70,7 @@ def _sec_multiset(m, sec, track_rel=True):
                 int(rr.rdtype),
                 int(rr.covers),
                 int(rr.ttl),
-                frozenset(_fold(int(rr.rdtype), rd.to_wire(origin=m.origin)) for rd in rr),
+                frozenset(_fold(int(rr.rdtype), rd.to_wire(origin=m.origin), int(rd.rdclass)) for rd in rr),
             )
         )
     return sorted(out, key=repr)
@@ -139,6 +139,18 @@ def run(case):
         a, b = _sec_multiset(m, m.sections[si], tr), _sec_multiset(p, p.sections[si], tr)
         if a != b:
             raise Violation("roundtrip", f"section {si} differs after render+parse:\n {a!r}\n {b!r}", f"section{si}")
+    if case.get("update") is not None:
+        # RFC 2136: the class field of a delete/prerequisite form is ANY/NONE (kept in `deleting`); the
+        # record set itself belongs to the zone's class, also after parsing
+        zc = case["update"]["zone_class"]
+        if [int(z.rdclass) for z in p.sections[0]] != [zc]:
+            raise Violation("roundtrip", f"parsed zone section class {[int(z.rdclass) for z in p.sections[0]]} != {zc}", "update-zone-class")
+        for si in (1, 2):
+            for rr in p.sections[si]:
+                if int(rr.rdclass) != zc:
+                    raise Violation("roundtrip", f"UPDATE section {si}: parsed record set {rr.name} type {int(rr.rdtype)} deleting={rr.deleting} has class {int(rr.rdclass)}, the zone's class is {zc}", "update-class")
+        if zc != 1:
+            classes.append("update-class-not-IN")
     if origin is None and case.get("update") is None and not (p == m and m == p):
         raise Violation("roundtrip", "parsed message != original (Message.__eq__)", "eq")
     # 2. header counts vs independent walker
@@ -187,7 +199,7 @@ def run(case):
             got = W.uncompressed_rdata(rr.pieces) if rr.pieces is not None else b""
             if got.lower() != rdata.lower() or len(got) != len(rdata):
                 raise Violation("compression", f"RR #{idx} type {rtype}: RDATA decompresses to {got.hex()}, uncompressed rendering is {rdata.hex()}", f"rdata:{rtype}")
-            if rr.rdtype not in W.RDATA_NAME_LAYOUT and got != rdata:
+            if rr.pieces is not None and len(rr.pieces) == 1 and rr.pieces[0][0] == "raw" and got != rdata:
                 raise Violation("compression", f"RR #{idx} type {rtype}: RDATA differs", f"rdata-opaque:{rtype}")
             pos = hdr_end + rdlen
             idx += 1
@@ -226,6 +238,6 @@ def parts(tier):
     return [
         Part("messages", run, strategy=MG.message(), n={"quick": 5000, "thorough": 300000},
              require={"pointer": 1000, "extended-rcode": 100, "update-any-none": 100, "size>0x4000": 20,
-                      "origin": 300, "relative-255": 10, "edns": 1000, "opcode:5": 200, "opcode:4": 100},
+                      "origin": 300, "relative-255": 10, "update-class-not-IN": 50, "edns": 1000, "opcode:5": 200, "opcode:4": 100},
              shards={"quick": 16, "thorough": 16}),
     ]
